@@ -296,3 +296,52 @@ r19_4.rule_id = "R19.4"
 
 RULES = [r19_1, r19_2, r19_3, r19_4]
 FLOORS = {"R19.1": 4, "R19.2": 8, "R19.3": 8, "R19.4": 8}
+
+
+def r19_5(ctx):
+    """MichaelHashSet iterator (bucket hopping): the list iterator it keeps as its position on a return path is the very value that was compared
+    with that bucket's end() and found different - or an end() itself (the set's end).  Testing one begin() snapshot and keeping another
+    leaves the iterator on an emptied bucket's end: != end() of the set, but without a current element."""
+    from sa.q import norm_cond, noepoch
+    n = 0
+    for F in ctx.db.funcs.values():
+        if not re.search(r"michael_set::details::iterator::next$", F.q):
+            continue
+        for p in PathSim(F, bound=2000).run():
+            if p.outcome != "return":
+                continue
+            ev = p.events
+            ends = set(noepoch(e.val) for e in ev if e.kind == "call" and e.q and re.search(r"::c?end$", e.q))
+            last = None
+            for e in ev:
+                if e.kind == "call" and e.q and isinstance(e.obj, tuple) and noepoch(e.obj) == ("fld", ("this",), "m_itList"):
+                    if e.q.endswith("::operator=") and e.args:
+                        last = (noepoch(e.args[0]), e)
+                    elif e.q.endswith("::operator++"):
+                        last = (noepoch(e.val), e)
+            if last is None:
+                continue
+            v, at = last
+            n += 1
+            if v in ends:
+                ctx.ok("R19.5", F, "the position kept by the set iterator was itself found different from its bucket's end()", at.node, sig="kept-is-tested")
+                continue
+            ok = False
+            for e in ev:
+                if e.kind == "branch" and isinstance(e.extra, tuple) and e.extra[0] != "switch":
+                    atom, pol = norm_cond(e.val)
+                    atom = noepoch(atom)
+                    if isinstance(atom, tuple) and atom[:1] == ("op",) and atom[1] in ("!=", "==") and len(atom) == 4 and \
+                            ((atom[2] == v and atom[3] in ends) or (atom[3] == v and atom[2] in ends)):
+                        differs = ((e.extra[1] == pol) == (atom[1] == "!="))
+                        if differs:
+                            ok = True
+            ctx.check(ok, "R19.5", F, "the position kept by the set iterator was itself found different from its bucket's end()", at.node,
+                      detail="the iterator keeps %r, but no '!= end()' outcome on this path is about that value (a different begin() snapshot was tested): a "
+                      "concurrent erase between the two reads leaves the iterator on the end of an emptied, non-last bucket - it compares != set.end() yet has "
+                      "no current element. %s" % (v, R), sig="kept-is-tested")
+    if n < 3:
+        ctx.broken("michael_set iterator::next return paths not found (%d)" % n)
+r19_5.rule_id = "R19.5"
+RULES.append(r19_5)
+FLOORS["R19.5"] = 3
